@@ -13,7 +13,7 @@ import ast
 from ..engine import rule, run_property
 TILE = 'mapproxy/cache/tile.py'
 from ..model import Undecided
-from ..cfg import same, same_args, dotted, call_name, is_call, simple_name, unparse, const_value, contains, enclosing, implied
+from ..cfg import same, ctext_of, same_args, dotted, call_name, is_call, simple_name, unparse, const_value, contains, enclosing, implied
 from ..flow import Defs, depends
 from ..decide import table, ret_kind, expr_table
 from ..util import keyword, returns_of, calls_in, inside, order_key
@@ -187,7 +187,7 @@ def c14c(ctx):
     cc2 = ctx.fn('mapproxy/client/wms.py:WMSClient.combined_client')
     g = cc2.cfg
     news = g.find(lambda x: is_call(x, 'WMSClient'))
-    ok = bool(news) and all(g.guarded(n, lambda at: at.op == '==' and 'request_template.url' in at.text, True) for n, x in news)
+    ok = bool(news) and all(g.guarded(n, lambda at: at.op == '==' and all(ctext_of(e).endswith('request_template.url') for e in (at.left, at.right)), True) for n, x in news)
     ctx.check(ok, 'WMSClient.combined_client:same-url', 'requests are combined only for the same upstream URL', cc2,
               fail='requests to different upstream URLs can be combined')
     lay = [s for s in cc2.walk() if isinstance(s, ast.Assign) and unparse(s.targets[0]) == 'new_req.params.layers']
